@@ -20,6 +20,7 @@ package handler
 //@ event SendErrorOK = ret interop.(InvokeResponseSender).SendErrorResponse when r0 == nil
 //@ event SendErrorTooLarge = ret interop.(InvokeResponseSender).SendErrorResponse when typeis(r0, *interop.ErrorResponseTooLarge)
 //@ event SendInitError = call interop.(Server).SendInitErrorResponse
+//@ event SendInitErrorTooLarge = ret interop.(Server).SendInitErrorResponse when typeis(r0, *interop.ErrorResponseTooLarge)
 //@ event StoreTrace = call appctx.StoreInvokeErrorTraceData
 //@ event RtNext = call core.(*Runtime).Ready
 //@ event RtNextRefused = ret core.(*Runtime).Ready when r0 != nil
@@ -97,6 +98,9 @@ package handler
 //@   ensures [refused-403] delta(RtInitErrorRefused) == 1 || delta(RtRestoreErrorRefused) == 1 ==> delta(Render403) == 1 && noSideEffects()
 //@   ensures [accepted-init-error] delta(RtInitError) == 1 && delta(RtInitErrorRefused) == 0 ==> delta(SendInitError) == 1 && delta(Render403) == 0
 //@   ensures [restore-branch-never-sends] delta(RtRestoreError) == 1 ==> delta(SendInitError) == 0
+// C12: an init error whose body is above the payload limit is refused by the server (it could not be delivered later); the
+// runtime is told so with 413 like for an oversized response, not left with a dropped connection by a panicking handler
+//@   ensures [C12: an-oversized-init-error-is-answered-413] delta(SendInitErrorTooLarge) == 1 ==> delta(Render413) == 1 && delta(RenderInterop) == 0 && delta(RenderAccepted) == 0
 
 // ---------------------------------------------------------------------------------------------
 // C13: Extensions API handlers. Events are validated before any state change; every refusal is a 403 with the
